@@ -214,7 +214,7 @@ def runProg (g : GroupCtx F) (regs : Array (Jac F)) : List String → Option (Ar
 def wnafHistory (g : GroupCtx F) (ctx : WnafCtx F) : List String → List String → Option (List String)
   | [], acc => some acc.reverse
   | ins :: rest, acc => do
-    match ins.splitOn "," with
+    match ins.splitOn ":" with
     | ["bs", b, n, k] =>
       let b ← (jacIO g.io).parse b; let n ← parseHex n; let k ← parseHex k
       let (res, ctx') ← ctx.baseThenScalar g.rc b n k
